@@ -79,6 +79,17 @@ type Beh struct {
 	FailRun             int
 	Comp                string // result of Comp() for func-tag providers
 	OrderVal            int
+
+	// programmatic lookups performed at the start of Init (public API use from a callback)
+	InitLookups []string
+	Lookup      func(name string) (any, error)
+	Looked      []LookResult
+}
+
+type LookResult struct {
+	Name string
+	Got  any
+	Err  error
 }
 
 func (b *Beh) fault(mode int, calls int) error {
@@ -142,6 +153,17 @@ func (c *Core) AfterPropertiesSet() error {
 
 func (c *Core) Init() error {
 	c.B.InitCalls++
+	if c.B.Lookup != nil {
+		for _, n := range c.B.InitLookups {
+			got, err := c.B.Lookup(n)
+			c.B.Looked = append(c.B.Looked, LookResult{n, got, err})
+			if err != nil {
+				// a callback that cannot get what it asked for fails (no silent retry later)
+				c.B.Log.Add(Event{Kind: "init", ID: c.B.ID, Note: "lookup-failed"})
+				return err
+			}
+		}
+	}
 	c.B.Log.Add(Event{Kind: "init", ID: c.B.ID, Snap: Snap(c.B.Self)})
 	return c.B.fault(c.B.FailInit, c.B.InitCalls)
 }
